@@ -122,7 +122,7 @@ def run(ctx):
     quick = ctx.tier == "quick"
     rng = ctx.rng("gen")
     cases = []
-    for i in range(24 if quick else 600):
+    for i in range(24 if quick else 160):
         cases.append({"i": i, "scenario": rng.choice(["big", "bigslow", "bigslow", "bigslow_cf"]), "nsub": rng.randint(2, 4),
                       "preexisting": rng.random() < 0.25, "max_ms": rng.choice([2, 10, 30]),
                       "skew": rng.choice([0.0, 0.02, 0.05])})
